@@ -99,5 +99,37 @@ Theorem C20_plane_inclination_small_e : forall e0 i r w m n b ts j Ew radius the
 Proof. exact plane_leaf3. Qed.
 Print Assumptions C20_plane_inclination_small_e.
 
+(* the geocentric distance against the osculating ellipse: a (1 - eL) <= r <= a (1 + eL), and the short-period radius
+   differs from r by at most 3 k2 / pL^2 * r + k2 / (2 pL) earth radii (below 23 km for pL >= 1, r <= 2) *)
+From PyOrb.proofs Require P_Sgp4Radius.
+Theorem C20_distance_band : forall el t e Ew, 0 < a el t -> eL2 el t e < 1 ->
+  a el t * (1 - sqrt (eL2 el t e)) <= r el t e Ew <= a el t * (1 + sqrt (eL2 el t e)) /\
+  Rabs (rk el t e Ew - r el t e Ew) <= 3 * k2 / (pL el t e) ^ 2 * r el t e Ew + k2 / (2 * pL el t e).
+Proof. intros el t e Ew Ha HeL. exact (conj (P_Sgp4Radius.r_band el t e Ew Ha) (P_Sgp4Radius.rk_band el t e Ew Ha HeL)). Qed.
+Print Assumptions C20_distance_band.
+
+(* on every answered propagation the RETURNED radius [km] (= |position|, C20_radius) is in that band *)
+Theorem C20_answered_distance : forall e0 i r0 w m n b ts j Ew radius theta eqinc ascn rdk rfdk smjaxs,
+  gen_init_outcome e0 i r0 w m n b = InitMode NearNorm 1 -> gen_nn1_prop_outcome e0 i r0 w m n b ts = PropOk j ->
+  exit_ok e0 i r0 w m n b ts Ew radius theta eqinc ascn rdk rfdk smjaxs ->
+  let El := E e0 i r0 w m n b in let T := mkT false ts in let ec := ecl e0 i r0 w m n b ts in
+  let Q := sqrt (eL2 El T ec) in
+  a El T * (1 - Q) <= r El T ec Ew <= a El T * (1 + Q) /\
+  Rabs (radius - r El T ec Ew * XKMPER) <= (3 * k2 / (pL El T ec) ^ 2 * r El T ec Ew + k2 / (2 * pL El T ec)) * XKMPER /\
+  (1 <= pL El T ec -> r El T ec Ew <= 2 -> Rabs (radius - r El T ec Ew * XKMPER) <= 23).
+Proof. exact P_Sgp4Radius.distance_leaf1. Qed.
+Print Assumptions C20_answered_distance.
+
+Theorem C20_answered_distance_small_e : forall e0 i r0 w m n b ts j Ew radius theta eqinc ascn rdk rfdk smjaxs,
+  gen_init_outcome e0 i r0 w m n b = InitMode NearNorm 3 -> gen_nn3_prop_outcome e0 i r0 w m n b ts = PropOk j ->
+  exit_ok3 e0 i r0 w m n b ts Ew radius theta eqinc ascn rdk rfdk smjaxs ->
+  let El := E e0 i r0 w m n b in let T := mkT true ts in let ec := ecl3 e0 i r0 w m n b ts in
+  let Q := sqrt (eL2 El T ec) in
+  a El T * (1 - Q) <= r El T ec Ew <= a El T * (1 + Q) /\
+  Rabs (radius - r El T ec Ew * XKMPER) <= (3 * k2 / (pL El T ec) ^ 2 * r El T ec Ew + k2 / (2 * pL El T ec)) * XKMPER /\
+  (1 <= pL El T ec -> r El T ec Ew <= 2 -> Rabs (radius - r El T ec Ew * XKMPER) <= 23).
+Proof. exact P_Sgp4Radius.distance_leaf3. Qed.
+Print Assumptions C20_answered_distance_small_e.
+
 Example C20_inhabited : 0 < 7000 * (15 / 2).
 Proof. lra. Qed.
